@@ -208,26 +208,32 @@ report (`add_success` / `add_failure` / `skip_uptodate` / `skip_ignore`) of a ta
 of every dependency the run has determined for it (`g1`: task_dep, calc_dep, delivered; `g2`: setup-tasks when the
 first pass chose it) — makes the age of the first terminal report a rank that decreases along `edgesAt`, so a reported
 task lies on no cycle.  A started task has all its `edgesAt`-successors reported (C01, `start_after_depsAt`); at a
-normal end every selected task is reported (C02, `all_processed_*`). -/
+normal end every selected task is reported (C02, `all_processed_*`).
+
+Scope: `[NoFailDeliver inp]` — the closure graph `edgesAt` of the monitor counts what *executed / up-to-date* calc_deps
+delivered; the values a calc task returned before its execution FAILED are delivered by doit as well (M1 `deliverF`,
+round 4) and are not part of `edgesAt` yet, so these theorems are stated for inputs without such values
+(`calcResFail` empty).  `Acyclic` / `FiniteTable` and the theorems above (no false cycle, no deadlock, termination) do
+cover them. -/
 
 /-- C09 (cycle diagnosed), serial runner, FULL: (1) a run that ends normally — `run_tasks` returned, no exception, not
     stopped by a failure — has no cycle in the closure graph of its selection; (2) in every reachable state (every
     prefix of every run) no task on a cycle of the closure graph has been started -/
-theorem C09_cycle_diagnosed_serial (inp : RunInput) (s : Sys) (hr : Reach inp s) (nTasks : Nat)
+theorem C09_cycle_diagnosed_serial (inp : RunInput) [NoFailDeliver inp] (s : Sys) (hr : Reach inp s) (nTasks : Nat)
     (hb : BoundedCalc inp nTasks) :
     (s.rpc = .halted → s.halt = .none → s.stop = false → cycleTasks inp nTasks (trace inp s) = []) ∧
     (∀ t ∈ cycleTasks inp nTasks (trace inp s), s.events.countP (Ev.isStartOf t) = 0) :=
   cycle_diagnosed_serial hr nTasks (calcsSat_of_bounded hb _)
 
 /-- the same for the parallel runners: every worker interleaving, every `numProcess` -/
-theorem C09_cycle_diagnosed_parallel (inp : RunInput) (s : Sys) (hr : PReach inp s) (nTasks : Nat)
+theorem C09_cycle_diagnosed_parallel (inp : RunInput) [NoFailDeliver inp] (s : Sys) (hr : PReach inp s) (nTasks : Nat)
     (hb : BoundedCalc inp nTasks) :
     (s.rpc = .halted → s.halt = .none → s.stop = false → cycleTasks inp nTasks (trace inp s) = []) ∧
     (∀ t ∈ cycleTasks inp nTasks (trace inp s), s.events.countP (Ev.isStartOf t) = 0) :=
   cycle_diagnosed_parallel hr nTasks (calcsSat_of_bounded hb _)
 
 /-- C09 (cycle diagnosed), all three runners: the statement that was `def C09_cycle_diagnosed_full`, now a theorem -/
-theorem C09_cycle_diagnosed (inp : RunInput) (s : Sys) (hr : Reach inp s ∨ PReach inp s) (nTasks : Nat)
+theorem C09_cycle_diagnosed (inp : RunInput) [NoFailDeliver inp] (s : Sys) (hr : Reach inp s ∨ PReach inp s) (nTasks : Nat)
     (hb : BoundedCalc inp nTasks) :
     (s.rpc = .halted → s.halt = .none → s.stop = false → cycleTasks inp nTasks (trace inp s) = []) ∧
     (∀ t ∈ cycleTasks inp nTasks (trace inp s), s.events.countP (Ev.isStartOf t) = 0) := by
@@ -238,7 +244,7 @@ theorem C09_cycle_diagnosed (inp : RunInput) (s : Sys) (hr : Reach inp s ∨ PRe
 /-- consequently: if the closure of the selection has a cycle and the run was not cut short by a failure, then — unless
     doit died of an internal error (`halt = crash`: an `assert` of the dispatcher / of `MRunner`; excluded for the
     `"hold on"` paths by `C09_no_deadlock_*`) — the run ended with the cyclic-dependency error and exit code 3 -/
-theorem C09_cycle_exit3 (inp : RunInput) (s : Sys) (hr : Reach inp s ∨ PReach inp s) (nTasks : Nat)
+theorem C09_cycle_exit3 (inp : RunInput) [NoFailDeliver inp] (s : Sys) (hr : Reach inp s ∨ PReach inp s) (nTasks : Nat)
     (hb : BoundedCalc inp nTasks) (hcyc : cycleTasks inp nTasks (trace inp s) ≠ []) (hend : s.rpc = .halted)
     (hstop : s.stop = false) (hnc : s.halt ≠ .crash) : s.halt = .cyclic ∧ exitCode s = 3 := by
   have h := (C09_cycle_diagnosed inp s hr nTasks hb).1 hend
@@ -249,7 +255,7 @@ theorem C09_cycle_exit3 (inp : RunInput) (s : Sys) (hr : Reach inp s ∨ PReach 
 
 /-- stronger than "never started": a task on a cycle of the closure graph is never reported at all — not executed, not
     skipped as up-to-date or ignored, not reported failed/unmet (a terminal report would rank it below itself) -/
-theorem C09_cycle_task_never_reported (inp : RunInput) (s : Sys) (hr : Reach inp s ∨ PReach inp s) (nTasks : Nat)
+theorem C09_cycle_task_never_reported (inp : RunInput) [NoFailDeliver inp] (s : Sys) (hr : Reach inp s ∨ PReach inp s) (nTasks : Nat)
     (hb : BoundedCalc inp nTasks) (t : Name) (hc : onCycle inp nTasks (trace inp s) t = true) :
     s.events.countP (Ev.isTerminalOf t) = 0 := by
   have hT : InvT inp s := by
@@ -269,7 +275,7 @@ theorem C09_cycle_task_never_reported (inp : RunInput) (s : Sys) (hr : Reach inp
 
 /-- the order invariant behind it, all three runners, every graph: in every reachable state, every edge `t → d` of the
     closure graph out of a task that has a terminal report leads to a task whose terminal report is older -/
-theorem C09_report_after_dependencies (inp : RunInput) (s : Sys) (hr : Reach inp s ∨ PReach inp s) (nTasks : Nat)
+theorem C09_report_after_dependencies (inp : RunInput) [NoFailDeliver inp] (s : Sys) (hr : Reach inp s ∨ PReach inp s) (nTasks : Nat)
     (hb : BoundedCalc inp nTasks) (t : Name) (a : Nat) (ha : fstTerm s.events t = some a) :
     ∀ d ∈ edgesAt inp nTasks (trace inp s) t, ∃ b, fstTerm s.events d = some b ∧ b < a := by
   have hT : InvT inp s := by
@@ -377,6 +383,7 @@ theorem exAcyclic_calcOf : ∀ n c, CalcOf exAcyclic n c → n = 2 ∧ c = 0 := 
     · rename_i hn; simp at h; exact ⟨hn, h⟩
     · simp at h
   | res _ h _ => simp [exAcyclic] at h
+  | resFail _ h _ => simp [exAcyclic] at h
 
 /-- the hypothesis `Acyclic` is satisfiable by a graph with all edge kinds … -/
 theorem C09_exAcyclic_acyclic : Acyclic exAcyclic := by
@@ -398,11 +405,13 @@ theorem C09_exAcyclic_acyclic : Acyclic exAcyclic := by
     · simp at h
   | resT _ h => simp [exAcyclic] at h
   | resF _ h => simp [exAcyclic] at h
+  | resTFail _ h => simp [exAcyclic] at h
+  | resFFail _ h => simp [exAcyclic] at h
 
 /-- … and is a finite task table with 5 tasks, and satisfies the fuel hypothesis of `C09_cycle_diagnosed_*`: the
     hypotheses of `C09_terminates_serial` and `C09_cycle_diagnosed_*` hold of a graph with every edge kind -/
 theorem C09_exAcyclic_finite : FiniteTable exAcyclic 5 ∧ BoundedCalc exAcyclic 5 := by
-  refine ⟨⟨?_, ?_, ?_, ?_, ?_, ?_, ?_⟩, fun t => ⟨?_, ?_⟩⟩
+  refine ⟨⟨?_, ?_, ?_, ?_, ?_, ?_, ?_, ?_, ?_, ?_⟩, fun t => ⟨?_, ?_⟩⟩
   all_goals first
     | (intro n d h; simp only [exAcyclic] at h; repeat' split at h
        all_goals (simp at h; try first | (subst h; decide) | (rcases h with rfl | rfl <;> decide)))
